@@ -109,7 +109,7 @@ class C15(Prop):
         for k in range(120 if tier == "quick" else 1500):
             # the Murphy diagram itself: several forecast columns, eta grids on data values
             n = rng.randint(2, 8)
-            nm = rng.choice([1, 2, 3])
+            nm = rng.choice([1, 2, 3, 3, 11])
             y = [rng.randint(-4, 8) / 2 for _ in range(n)]
             cols = [[rng.randint(-4, 8) / 2 for _ in range(n)] for _ in range(nm)]
             if len(set(y + [v for c in cols for v in c])) < 2:
@@ -118,8 +118,11 @@ class C15(Prop):
             etas = rng.randint(2, 7) if rng.random() < 0.4 else sorted(set(rng.sample(vals, min(len(vals), 3)) + [rng.randint(-8, 16) / 4]))
             if isinstance(etas, list) and rng.random() < 0.4:
                 etas = etas[::-1] if rng.random() < 0.5 else rng.sample(etas, len(etas))  # descending / the user's own order
+            from .decomp_common import gen_colnames
+
             yield {"stream": "murphy", "y": y, "cols": cols, "f": rng.choice(FUNCS), "level": rng.choice([0.5, 0.25, 0.75]),
-                   "w": None if rng.random() < 0.5 else [rng.choice([1.0, 2.0, 0.5]) for _ in range(n)], "etas": etas}
+                   "w": None if rng.random() < 0.5 else [rng.choice([1.0, 2.0, 0.5]) for _ in range(n)], "etas": etas,
+                   "colnames": gen_colnames(rng, nm) if 2 <= nm <= 3 else None}
         for k in range(400 if tier == "quick" else 6000):
             n = rng.randint(1, 9)
             ys = [Fraction(rng.randint(-4, 4)) for _ in range(n)]
